@@ -27,8 +27,8 @@ def signature(case, mask):
         h = op[3]
         sig["inplace"] = bool(h.get("inplace"))
         sig["multi_kw"] = len(h.get("kw") or []) + len(h.get("kwfn") or []) >= 2
-    # the written attribute has a dependant whose reset runs a default factory, and a user
-    # callback was made to raise in this operation
+    # the written attribute has a dependant whose reset runs a user callback (default factory,
+    # or the preparer applied to the restored default), and a callback was made to raise
     if op[0] in ("setattr", "delattr"):
         targets = [op[2]]
     elif op[0] == "helper" and op[2][1] is not None:
@@ -41,8 +41,9 @@ def signature(case, mask):
     if targets and writes_receiver and case["ops"][-1][1] is not None:
         for c in case["table"]:
             for a in c["attrs"]:
-                if a.get("factory") is not None and any(x in targets or x == 99 for x in a.get("inv_by") or []):
-                    sig["dependant_factory_raises"] = True
+                if ((a.get("factory") is not None or a.get("prepare") is not None)
+                        and any(x in targets or x == 99 for x in a.get("inv_by") or [])):
+                    sig["dependant_reset_raises"] = True
     return sig
 
 
